@@ -162,7 +162,7 @@ class PropertyCall:
         self.q, self.o = q, o
 
 
-SPEC_NAMES = {'TXT', 'ALL', 'SAME_ITEMS', 'ITEM', 'IDX'}
+SPEC_NAMES = {'TXT', 'ALL', 'SAME_ITEMS', 'MATCH', 'NOMATCH'}
 
 
 class Unbound:
@@ -972,7 +972,7 @@ class Exec:
             # facts established while evaluating in the old state (instances of ghost-function laws, conditions
             # entailed by the old path condition) remain true: keep them as hypotheses
             for c in r[0][0].pc[n0:]:
-                st.assume(c)
+                self.add_fact(st, c)
             return [(st, r[0][1])]
         out = []
         for s, f in self.eval(node.func, st):
@@ -1374,6 +1374,14 @@ class Exec:
         return loops.do_yield(self, node, st)
 
     # ---------------------------------------------------------------- spec expressions (sidecar strings)
+    def add_fact(self, st, z):
+        """a valid fact (instance of a ghost-function law, or a condition entailed by an earlier state of the same
+        path): inside a spec evaluation it is handed to the enclosing state as a FACT, not kept as a hypothesis"""
+        if getattr(self, '_in_spec', False) and getattr(self, '_facts', None) is not None:
+            self._facts.append(z)
+        else:
+            st.assume(z)
+
     def spec(self, text, st, extra=None):
         """evaluate a sidecar spec expression in state st (+ extra bindings) to bool / z3 Bool"""
         node = ast.parse(text.strip(), mode='eval').body
@@ -1381,15 +1389,20 @@ class Exec:
         if extra:
             s.env.update(extra)
         old_spec = getattr(self, '_in_spec', False)
+        old_facts = getattr(self, '_facts', None)
         self._in_spec = True
+        self._facts = []
         try:
             r = self.eval(node, s)
         finally:
             self._in_spec = old_spec
+            facts, self._facts = self._facts, old_facts
+        for f in facts:
+            st.assume(f)
         if len(r) != 1:
             # a spec that forks: combine as (pc_i => v_i) for all i
             parts = []
-            base = len(st.pc)
+            base = len(st.pc) - len(facts)
             for s_i, v in r:
                 t = self.truth(v, s_i)
                 cond = self.conj(s_i.pc[base:])
@@ -1398,7 +1411,7 @@ class Exec:
             return z3.And(*parts)
         s1, v = r[0]
         t = self.truth(v, s1)
-        extra_pc = s1.pc[len(st.pc):]
+        extra_pc = s1.pc[len(st.pc) - len(facts):]
         if extra_pc:
             t = z3.Implies(z3.And(*extra_pc), t if not isinstance(t, bool) else z3.BoolVal(t))
         return t
